@@ -1,6 +1,7 @@
 //! vh — conformance harness: replays TLC-generated behaviours into the real varlink code and
 //! records traces of the real code for validation against the TLA+ specifications.
 mod cli;
+mod cert;
 mod client;
 mod conn;
 mod connmc;
@@ -31,6 +32,8 @@ fn main() {
         "poolobs" => poolobs::run(rest),
         "client" => client::run(rest),
         "cli" => cli::run(rest),
+        "cert" => cert::run(rest),
+        "certtrace" => cert::run_trace(rest),
         "wire" => wire::run(rest),
         "idlnames" => idl::run_names(rest),
         "idltok" => idl::run_tokens(rest),
